@@ -28,6 +28,7 @@ type PropConfig struct {
 	Replay map[string]ReplayDriver `json:"replay"`
 	// bounded stand-ins: run in thorough tier (and when a function drifts)
 	Bounded     []BoundedCheck `json:"bounded"`
+	Tables      []TableCheck   `json:"tables"`
 	Assumptions []string       `json:"assumptions"`
 	TrustedBase []string       `json:"trusted_base"`
 	MinObl      int            `json:"min_obligations"`
@@ -161,6 +162,9 @@ func runCheck(args []string) int {
 	}
 	for _, ln := range cfg.Lemmas {
 		e.proveLemma(ln)
+	}
+	for _, tc := range cfg.Tables {
+		e.checkTable(tc)
 	}
 	timeout := 4000
 	if cfg.QuickMs > 0 {
